@@ -177,12 +177,12 @@ func c18Expand(msg reflect.Value, perFile, perFileLossy, globalExact, globalLoss
 }
 
 type c18Replay struct {
-	Desc  string      `json:"desc"`
-	Files [][]c18Msg  `json:"files"`
-	FT    byte        `json:"file_type"`
-	Big   bool        `json:"big_endian"`
-	Mode  string      `json:"mode"` // separate | chained
-	Hex   []string    `json:"streams_hex"`
+	Desc  string     `json:"desc"`
+	Files [][]c18Msg `json:"files"`
+	FT    byte       `json:"file_type"`
+	Big   bool       `json:"big_endian"`
+	Mode  string     `json:"mode"` // separate | chained
+	Hex   []string   `json:"streams_hex"`
 }
 
 // process-wide shadow of the package-level accumulators (defect models K3 / K1+K3)
